@@ -8,6 +8,15 @@ from vlib import cfggen, spec
 from . import common, rtcommon
 
 
+def strip_serials(x):
+    """a probe description without serial numbers (and without the objects' own logs of later calls)"""
+    if isinstance(x, dict):
+        return {k_: strip_serials(v) for k_, v in x.items() if k_ != "serial"}
+    if isinstance(x, list):
+        return [strip_serials(v) for v in x]
+    return x
+
+
 def tweak(r, g, cfg):
     # make tags and decorators dense; spread the configuration over files later (merge order of decorators)
     pass
@@ -35,6 +44,21 @@ def run(tier, seed, replay):
                 sp["patterns"] = ["cfg/*/d.yaml"]
             else:
                 sp["files"] = [{"path": "cfg/f%d.yaml" % i, "content": cfggen.to_yaml(p)} for i, p in enumerate(parts)]
+    # directed: decorators of two tags interleaved in declaration order, on services carrying one, the other or both tags
+    import itertools as _it
+    for order in (["alpha", "beta", "alpha"], ["beta", "alpha", "beta", "alpha"], ["zeta", "alpha", "zeta"], ["alpha", "alpha", "beta", "alpha"], ["b", "a", "c", "a", "b"]):
+        tags_ = sorted(set(order))
+        svcs = {"both": {"constructor": "NewA", "tags": list(reversed(tags_)), "calls": [["Init", []]]}, "none": {"constructor": "NewB"}}
+        for t_ in tags_:
+            svcs["only_" + t_] = {"constructor": "MakeC", "tags": [{"name": t_, "priority": 3}]}
+        decs = [{"tag": t_, "decorator": ["Decorate", "Wrap"][i % 2], "arguments": [i]} for i, t_ in enumerate(order)]
+        for split in (False, True):
+            cfg = {"services": svcs, "decorators": decs}
+            sp = common.mk_spec(len(specs), [cfg] if not split else [{"services": svcs, "decorators": decs[:2]}, {"decorators": decs[2:]}], keep_out=True)
+            sp["cfg"] = cfg
+            sp["what"] = ["interleaved-decorators" + ("/two-files" if split else "")]
+            specs.append(sp)
+            hists.append([{"op": "get", "name": n_} for n_ in svcs] + [{"op": "tagged", "name": t_} for t_ in tags_])
     if replay:
         rp = json.load(open(replay))["replay"]
         specs = [dict(rp, id="0", dump=True, build_info="bi", keep_out=True)]
@@ -57,13 +81,43 @@ def run(tier, seed, replay):
                         if spec.tag_name(t) == o["name"]:
                             want.append((-(t.get("priority", 0) if isinstance(t, dict) else 0), n))
                 want = [n for _, n in sorted(want)]
-                # each element of the list is the service as Get returns it: compare with the get lines of the same history (shared services)
+                # each element of the list is the service as Get returns it: the list, element by element and with serial numbers removed,
+                # must be the Get results of the carriers in the documented order (independent of the runtime model)
                 nontrivial.add(line)
+                raw = obs[k]["rt_raw"]
+                getline = {oo["name"]: raw[j] for j, oo in enumerate(hists[k]) if oo["op"] == "get"}
+                j0 = hists[k].index(o)
+                if raw[j0].get("k") == "list" and all(getline.get(n, {}).get("k") == "obj" for n in want):
+                    got_items = [strip_serials(x) for x in raw[j0]["items"]]
+                    want_items = [strip_serials(getline[n]) for n in want]
+                    dist["order_checked"] = dist.get("order_checked", 0) + 1
+                    if len(want) >= 2:
+                        dist["order_checked_2plus"] = dist.get("order_checked_2plus", 0) + 1
+                    if got_items != want_items:
+                        out.violation("tagged-order", "GetTaggedBy(%s) does not return the carriers %s in the documented order (priority descending, then name ascending), each as Get returns it" % (o["name"], want),
+                                      dict(common.slim(specs[k], obs[k]), history=hists[k], expected_order=want, got=[x.get("origin") for x in raw[j0]["items"]]))
                 items = line.count("O(") + line.count("N")
                 if len(want) and line == "L[]":
                     out.violation("tagged-empty", "!tagged %s injects nothing although %s carry the tag" % (o["name"], want), dict(common.slim(specs[k], obs[k]), history=hists[k]))
             if o["op"] == "get" and (".Decorate;" in line or ".Wrap;" in line):
                 dist["decorated"] += 1
+            if o["op"] == "get" and obs[k]["rt_raw"][hists[k].index(o)].get("k") == "obj":
+                # decorators: applied in declaration order to every service carrying their tag, each receiving
+                # (tag, service id, current object, declared arguments...): peel the object from the outside in
+                cur = obs[k]["rt_raw"][hists[k].index(o)]
+                peeled = []
+                while cur.get("k") == "obj" and cur["origin"].rsplit(".", 1)[-1] in ("Decorate", "Wrap") and len(cur["args"]) >= 3 and cur["args"][0].get("k") == "str":
+                    peeled.append((cur["origin"].rsplit(".", 1)[-1], cur["args"][0].get("v"), cur["args"][1].get("v"), len(cur["args"]) - 3))
+                    cur = cur["args"][2]
+                sv = cfg["services"].get(o["name"]) or {}
+                mytags = [spec.tag_name(t) for t in sv.get("tags") or []]
+                wantd = [(dc["decorator"].rsplit(".", 1)[-1], dc["tag"], o["name"], len(dc.get("arguments") or [])) for dc in cfg.get("decorators") or [] if dc["tag"] in mytags]     # ("*" is accepted by the grammar as a decorator tag but no service can carry it: never applied)
+                dist["decorator_chains_checked"] = dist.get("decorator_chains_checked", 0) + 1
+                if len(wantd) >= 2:
+                    dist["decorator_chains_2plus"] = dist.get("decorator_chains_2plus", 0) + 1
+                if peeled[::-1] != wantd:
+                    out.violation("decorator-chain", "Get(%s): decorators applied %s, documented %s (declaration order, each with tag, service id, current object, its arguments)" % (o["name"], peeled[::-1], wantd),
+                                  dict(common.slim(specs[k], obs[k]), history=hists[k]))
     out.coverage.update({
         "evaluations": sum(len(h) for h in hists), "distinct_nontrivial": len(nontrivial), "programs": len(acc),
         "rule": "accepted configurations with dense tags (several tags per service, priorities negative / equal / large) and several decorators per tag with every argument form, half of them spread over 2-3 files; GetTaggedBy on every tag (plain and in a context) and Get on every service through the real runtime; compared with the runtime model (order, identity, decorator payload); non-trivial = distinct tagged list",
